@@ -9,6 +9,13 @@
 //   SWEEP \t e0 \t e1 \t m0 \t m1 \t step   pure libc: every decimal d = m * 10^e (m0 <= m < m1, m += step; e0 <= e <= e1)
 //                         strtof(d) = y, (float)strtod(d) = y, snprintf("%g", y) parsed again = y and spells m*10^e
 //                                                                             -> SWEEP \t n \t fails \t first failure
+//   HIST \t <pool> \t <K> \t <hex script>   a history: the pool values (';' separated <value>s, built through the public
+//                         data classes) are stored in the globals c06_p0, c06_p1, ..; the VM runs the script, which
+//                         leaves, for each of its K observations k, c06_t<k> = str <operand> (taken at that point of the
+//                         history), c06_v<k> = a snapshot of the operand at that point (deep copy), c06_c<k> = the text
+//                         compiled and evaluated, c06_e<k> = c06_c<k> isEqualTo c06_v<k>
+//                                                  -> K groups  hex c06_t<k> \t result c06_v<k> \t result c06_c<k> \t c06_e<k>,  then diag
+//                         (a code value is reported as OK K)
 // <value> = B0 | B1 | S<hex> | N<8 hex> | A<n> v1 .. vn (blank separated); result = OK <value> | FAIL <why>
 // NaN results are printed Nnan. Every VM case runs in a forked child of a process that holds a ready VM.
 #include "sqfrt.hpp"
@@ -16,6 +23,7 @@
 #include "runtime/d_string.h"
 #include "runtime/d_boolean.h"
 #include "runtime/d_array.h"
+#include "runtime/d_code.h"
 #include <cmath>
 #include <cstdint>
 #include <cstdlib>
@@ -79,6 +87,12 @@ static std::string result(const value& v)
     std::string o;
     if (enc(v, o)) return "OK " + o;
     return "FAIL " + o;
+}
+
+static std::string result_h(const value& v)
+{
+    if (!v.empty() && v.data_try<d_code>()) return "OK K";
+    return result(v);
 }
 
 static std::string sweep(long e0, long e1, long m0, long m1, long step)
@@ -149,6 +163,33 @@ int main()
                 for (auto& m : vm.lg.msgs) if (m.code == 20022) warn = true;
                 return result(c) + "\t" + (warn ? "1" : "0") + "\t" + vm.lg.codes();
             }, 10000, MEM_MB);
+        }
+        else if (f.size() == 4 && f[0] == "HIST")
+        {
+            res = forked([&]() -> std::string {
+                auto ns = vm.rt->default_value_scope();
+                auto pool = split(f[1], ';');
+                for (size_t j = 0; j < pool.size(); j++)
+                {
+                    auto toks = split(pool[j], ' ');
+                    size_t i = 0;
+                    ns->at("c06_p" + std::to_string(j)) = build(toks, i);
+                }
+                size_t K = std::stoul(f[2]);
+                if (!vm.load(unhex(f[3]))) return "LOADFAIL";
+                vm.start();
+                std::string o;
+                for (size_t k = 0; k < K; k++)
+                {
+                    auto n = std::to_string(k);
+                    auto s = ns->at("c06_t" + n); auto v = ns->at("c06_v" + n); auto c = ns->at("c06_c" + n); auto e = ns->at("c06_e" + n);
+                    o += (!s.empty() && s.data_try<d_string>()) ? hex(s.data_try<d_string>()->value()) : std::string("NOSTR");
+                    o += "\t" + result_h(v) + "\t" + result_h(c);
+                    o += "\t" + std::string((!e.empty() && e.data_try<d_boolean>()) ? (e.data_try<d_boolean>()->value() ? "true" : "false") : "noval");
+                    o += "\t";
+                }
+                return o + vm.lg.codes();
+            }, 20000, MEM_MB);
         }
         else if (f.size() == 6 && f[0] == "SWEEP")
         {
